@@ -15,7 +15,11 @@
 //     exists => stored and not removed;  (not removed and stored on a readable shard) => exists.
 //
 // Operations whose engine call returned an error may have had partial effects; the affected object
-// is then no longer judged (nothing is demanded about half-applied, rejected operations).
+// is then not judged (nothing is demanded about half-applied, rejected operations) until a later
+// removal of it is accepted: from then on it must not be served. The universe contains a LINK object
+// (the engine broadcasts it to every shard) and scripted letters "removal attempted while shard s is
+// read-only, then s back to read-write", so retried removals of multi-copy objects are reachable at
+// the quick depth.
 package main
 
 import (
@@ -578,11 +582,12 @@ func main() {
 		fmt.Println("  class+history:", c)
 	}
 	r.Set("outcome_classes", res.ObsClasses)
-	r.Rule(fmt.Sprintf("BFS over %d operations on a real 2-shard engine (error threshold %d, third shard attachable), depth bound %d (completed %d), states deduplicated by (per shard: mode, fault plan, error counter, per object file presence and metabase verdict; model: removed/unsure flags); after every transition Get/Head/exists of every object are judged against the ground truth of the shard directories; non-trivial = newly reached state", len(u.ops), u.errT, cfg.MaxDepth, res.DepthCompleted))
+	r.Rule(fmt.Sprintf("BFS over %d operations on a real 2-shard engine (error threshold %d, third shard attachable), depth bound %d (completed %d), states deduplicated by (per shard: mode, fault plan, error counter, per object file presence and metabase verdict; model: removed/unsure/skipped flags); the alphabet contains scripted letters 'Delete while shard s is read-only, then s read-write again' so that retried removals over a LINK object stored on every shard are reachable within the bound; after every transition Get/Head/exists of every object are judged against the ground truth of the shard directories; non-trivial = newly reached state", len(u.ops), u.errT, cfg.MaxDepth, res.DepthCompleted))
 	r.Assume(
 		"single-threaded histories; background GC never runs (remover interval 24h), epochs do not advance, no write-cache",
 		"read faults are injected at the blob storage (FSTree wrapper), not at the metabase; write faults fail a blob put before it touches the disk",
-		"objects touched by an engine operation that returned an error are not judged afterwards (half-applied rejected operations are outside the property)",
+		"an object touched by an engine operation that returned an error is not judged until a later removal of it is accepted (half-applied rejected operations are outside the property; an accepted removal must hold whatever was left behind)",
+		"fingerprint mechanism 'accepted-removal-skipped-a-healthy-writable-holder-shard' = when the removal was accepted, a shard holding a copy was read-write with no armed fault and still was not told; the older mechanisms cover holder shards that could not record the removal",
 		"HRW visiting orders are fixed by the choice of object IDs (x: 0 before 1, new shard first; y: placed by parent ID 1-first, read by own ID 0-first); the shard-map order of the tombstone broadcast is an explicit choice in the alphabet",
 	)
 	r.Finish()
